@@ -445,6 +445,11 @@ def _alloc_inline(callee, ev, path):
         return False
     if callee.key in FACTORIES:
         return True
+    # private module-level helpers next to the function that allocates (e.g. one that runs the callable into the
+    # future it is given)
+    root = path.frames[0].fi if path.frames else None
+    if root is not None and callee.owner is None and callee.parent is None and callee.module is root.module and callee.name.startswith("_") and not any(fr.fi is callee for fr in path.frames) and len(path.frames) < 4:
+        return True
     if callee.name in ("copy_exception", "copy_future_exception", "try_set_result"):
         return True
     return False
